@@ -202,6 +202,19 @@ func c16Triples(c *Ctx, n int) []c16Triple {
 			ts = append(ts, c16Triple{q, schema, "", "malformed/odd-keys-and-deep-nesting", nil})
 		}
 	}
+	// step ids that contain a dot next to nested fields of the same spelling: `"job.out"` (one root field) and `job: {out: ..}`
+	for i := 0; i < 3; i++ {
+		schema := fmt.Sprintf("fetch: {r: string, _dependencies: []}\n\"job.out\": {r: string, n%d: int, _dependencies: [\"fetch\"]}\njob: {out: {r: int}, _dependencies: []}\n\"a.b.c\": {v: bool, _dependencies: [\"job.out\"]}\na: {b: {c: {v: string}}, _dependencies: []}\n", i)
+		seq := [][2]string{{"$.job.out.r", ""}, {"$.fetch.r", "job.out"}, {"$.job.out.r", "job.out"}, {"$.a.b.c.v", ""}, {"$.fetch.r", "a.b.c"}, {"$.a.b.c.v", "a.b.c"}, {"$.job.out.r", "a.b.c"}, {"$.job.out.r", "fetch"}}
+		if i == 1 { // the other order
+			for l, r2 := 0, len(seq)-1; l < r2; l, r2 = l+1, r2-1 {
+				seq[l], seq[r2] = seq[r2], seq[l]
+			}
+		}
+		for _, qc := range seq {
+			ts = append(ts, c16Triple{qc[0], schema, qc[1], "dotted-step-ids", nil})
+		}
+	}
 	// First / Last / Index on a TOP-LEVEL list of structs next to queries that address a struct-typed field: both reach the
 	// "functions offered for (Object, Single)" computation, one with and one without the element's schema expression
 	for i := 0; i < 6 && len(ts) > 12; i++ {
@@ -211,7 +224,7 @@ func c16Triples(c *Ctx, n int) []c16Triple {
 			ts[(i*len(qs)+j)%n] = c16Triple{q, schema, "", "offered-functions", nil}
 		}
 	}
-	return ts[:n]
+	return ts
 }
 
 func randomBytes(r *rng, n int) string {
